@@ -453,6 +453,82 @@ fn random_write_case(rng: &mut Rng, rep: &mut Report) {
     run_write_case(&WriteCase { frame: (a, t, d), script, default: WriteAct::Accept(1 + rng.usize(600)), label: "random_script" }, rep);
 }
 
+/// Several frames written one after the other to ONE sink (some of the writes failing part-way): every write is judged
+/// on the bytes the sink accepted during that call — complete encoding on Ok, a prefix of it on Err — so nothing a
+/// write leaves behind (a staging buffer, a remembered position) may show up in the next one.
+fn random_write_session(rng: &mut Rng, rep: &mut Report) {
+    let k = 2 + rng.usize(4);
+    let frames: Vec<(u16, u8, Vec<u8>)> = (0..k)
+        .map(|_| {
+            let (a, t, mut d) = rand_frame(rng);
+            if rng.chance(1, 12) {
+                d = rng.bytes(255);
+            }
+            (a, t, d)
+        })
+        .collect();
+    let mut script = vec![];
+    for _ in 0..rng.usize(60) {
+        script.push(match rng.below(14) {
+            0 => WriteAct::Interrupted,
+            1 if rng.chance(1, 2) => WriteAct::Zero,
+            2 if rng.chance(1, 2) => WriteAct::Fail(*rng.pick(&[io::ErrorKind::Other, io::ErrorKind::TimedOut, io::ErrorKind::BrokenPipe])),
+            _ => WriteAct::Accept(1 + rng.usize(40)),
+        });
+    }
+    let default = WriteAct::Accept(1 + rng.usize(600));
+    let sig = format!("session|{}|{:?}|{:?}", frames.iter().map(|f| format!("{:04X}:{:02X}:{}", f.0, f.1, hex(&f.2))).collect::<Vec<_>>().join(","), script, default);
+    rep.case(Some(fnv(sig.as_bytes())));
+    rep.count("write_sessions");
+    let mut w = FragWriter::new(script.clone(), default);
+    let r = catch(|| {
+        let mut marks = vec![];
+        for f in &frames {
+            let before = (w.accepted.len(), w.log.len());
+            let fr = Frame::new(Address(f.0), MsgType(f.1), Data::try_new(f.2.clone()).expect("<=255"));
+            let ok = fr.write(&mut w).is_ok();
+            marks.push((before, ok));
+        }
+        marks
+    });
+    let fail = |rep: &mut Report, class: &str, what: String| {
+        rep.violation(MON_W, class, &sig, format!("{} frames written to one sink: {}", k, what), J::obj(vec![("workload", J::s("write session")), ("frames", J::Arr(frames.iter().map(|f| J::s(format!("{:04X}:{:02X}:{}", f.0, f.1, hex(&f.2)))).collect())), ("script", J::s(format!("{:?} then {:?}", script, default))), ("observed", J::s(what.clone()))]));
+    };
+    let marks = match r {
+        Ok(m) => m,
+        Err(p) => {
+            fail(rep, "panic", format!("panic {} at {}", p.msg, short_loc(&p.loc)));
+            return;
+        }
+    };
+    for (i, ((a0, l0), ok)) in marks.iter().enumerate() {
+        let (a1, l1) = if i + 1 < k { marks[i + 1].0 } else { (w.accepted.len(), w.log.len()) };
+        let got = &w.accepted[*a0..a1];
+        let want = refs::enc_crlf(frames[i].0, frames[i].1, &frames[i].2);
+        let sink_failed = w.log[*l0..l1].iter().any(|e| matches!(e.returned, Err(kind) if kind != io::ErrorKind::Interrupted) || (e.returned == Ok(0) && e.offered > 0));
+        if *ok {
+            if sink_failed {
+                fail(rep, "sink_failure_not_surfaced", format!("write #{} returned Ok although the sink failed during it", i));
+            } else if got != &want[..] {
+                fail(rep, "incomplete_or_wrong_bytes", format!("write #{} returned Ok; during it the sink accepted [{}], the frame encodes as [{}]", i, show_bytes(got), show_bytes(&want)));
+            } else {
+                rep.count("session_writes_ok");
+            }
+        } else {
+            if !sink_failed {
+                fail(rep, "error_without_sink_failure", format!("write #{} failed although the sink never failed during it", i));
+            } else if !want.starts_with(got) {
+                fail(rep, "garbage_before_failure", format!("write #{} failed; during it the sink accepted [{}], not a prefix of [{}]", i, show_bytes(got), show_bytes(&want)));
+            } else {
+                rep.count("session_writes_failed");
+                if i + 1 < k {
+                    rep.count("session_writes_after_a_failed_one");
+                }
+            }
+        }
+    }
+}
+
 pub fn run(ctx: &Ctx) -> Outcome {
     let n_rand = ctx.size(1_200_000, 15_000_000);
     let n_write = ctx.size(400_000, 5_000_000);
@@ -470,6 +546,9 @@ pub fn run(ctx: &Ctx) -> Outcome {
             for _ in 0..n_write / shards as u64 {
                 random_write_case(&mut rng, rep);
             }
+            for _ in 0..n_write / 4 / shards as u64 {
+                random_write_session(&mut rng, rep);
+            }
         }
     });
     let floors = vec![
@@ -481,6 +560,7 @@ pub fn run(ctx: &Ctx) -> Outcome {
         floor("frames read successfully", report.get("frames_read_ok") > 1000, report.get("frames_read_ok")),
         floor("reads hitting end of stream", report.get("reads_hitting_end_of_stream") > 0, report.get("reads_hitting_end_of_stream")),
         floor("short writes and write interrupts observed", report.get("short_writes_observed") > 0 && report.get("write_interrupts_fired") > 0, report.get("short_writes_observed")),
+        floor("several frames to one sink: complete writes, failed writes, and writes after a failed one", report.get("session_writes_ok") > 1000 && report.get("session_writes_failed") > 100 && report.get("session_writes_after_a_failed_one") > 100, format!("{} ok, {} failed, {} after a failed one", report.get("session_writes_ok"), report.get("session_writes_failed"), report.get("session_writes_after_a_failed_one"))),
         floor("write failures surfaced and complete writes both observed", report.get("write_failures_surfaced") > 0 && report.get("writes_ok_complete") > 0, report.get("write_failures_surfaced")),
     ];
     let sizes: Vec<J> = {
@@ -491,7 +571,7 @@ pub fn run(ctx: &Ctx) -> Outcome {
     Outcome {
         report,
         level: "fault_enumeration",
-        rule: "read: streams of 1..4 lines (valid, bare-LF, empty, garbage, lower-case, bad checksum, unterminated tail) + trailing bytes through a position-scripted reader — EVERY composition of three short streams into deliveries (8192 for the 14-byte one), an interrupt / hard error / premature EOF at EVERY stream position, plus seeded random fragmentations and fault subsets; write: every chunk size in {1,2,3,7,all} with a hard error / Ok(0) / interrupt at EVERY call index, plus random scripts; distinct by (tape, boundaries, faults) hash; all non-trivial".into(),
+        rule: "read: streams of 1..4 lines (valid, bare-LF, empty, garbage, lower-case, bad checksum, unterminated tail) + trailing bytes through a position-scripted reader — EVERY composition of three short streams into deliveries (8192 for the 14-byte one), an interrupt / hard error / premature EOF at EVERY stream position, plus seeded random fragmentations and fault subsets; write: every chunk size in {1,2,3,7,all} with a hard error / Ok(0) / interrupt at EVERY call index, plus random scripts, and sessions of 2..5 frames written to one sink with faults in between (each write judged on the bytes accepted during it); distinct by (tape, boundaries, faults) hash; all non-trivial".into(),
         exhaustive: false,
         floors,
         assumptions: vec![
